@@ -468,7 +468,10 @@ def run_property(pid, harnesses, tier, level='model_checking', assumptions=(), t
     discharged = sum(1 for r in results for p in r.get('props', []) if p['status'] in ('SUCCESS', 'SUCCESSFUL'))
     queries = sum(r.get('queries', 0) for r in results)
     symbolic_obl = sum(len(r.get('props', [])) for r in results if r.get('symbolic'))
-    nontrivial = sum(1 for r in results if r['status'] in ('ok', 'violation') and (r.get('witness_ok') is not False))
+    GENERIC = ('unaligned ', 'memory access outside', 'model stack overflow', 'indirect call to', 'llvm.trap reached', 'call to external function', 'heap access outside', 'model heap', 'model object table',
+               'free of an address', 'double free', 'unwinding assertion', 'recursion unwinding', '-', 'harness bound', 'layout guard')
+    nontrivial = sum(len(set(p['desc'] for p in r.get('props', []) if not p['desc'].startswith(GENERIC))) for r in results if r['status'] in ('ok', 'violation') and (r.get('witness_ok') is not False))
+    nontrivial += sum(1 for r in results if r['status'] == 'ok' and r.get('props') and all(p['desc'].startswith('conjunction of') for p in r['props']))
     funcs = sorted(set(f for r in results for f in r.get('functions_encoded', [])))
     samples = []
     for r in results[:40]:
@@ -480,8 +483,8 @@ def run_property(pid, harnesses, tier, level='model_checking', assumptions=(), t
               assumptions=list(assumptions),
               coverage=dict(evaluations=max(queries, 1), distinct_nontrivial=nontrivial,
                             rule='one evaluation = one assertion (or, in single-query / path-mode harnesses, one conjunction of assertions per query) of a harness decided by the SAT/SMT back end of cbmc over all '
-                                 'values of the symbolic inputs within the stated unwind/size bounds; distinct_nontrivial = number of distinct harness configurations (unit + contract, operation sequence, object shape, '
-                                 'heap arrangement) that returned a verdict AND whose reachability witness the solver confirmed (a vacuous harness is not counted); symbolic_obligations = assertions decided in '
+                                 'values of the symbolic inputs within the stated unwind/size bounds; distinct_nontrivial = number of distinct (harness configuration, oracle assertion) pairs decided by the solver in harnesses whose reachability witness was confirmed - '
+                                 'the generic memory-model assertions of the translation (alignment, mapped range, stack, indirect calls, traps) are not counted; single-query (path-mode) harnesses count once; symbolic_obligations = assertions decided in '
                                  'harnesses that have at least one symbolic input (tier H history queries are exhaustive case splits without symbolic inputs and are not counted there)',
                             symbolic_obligations=symbolic_obl,
                             obligations=max(obligations, 1), discharged=discharged, exhaustive=False,
